@@ -230,6 +230,8 @@ def build_harness(race=False):
     shutil.copy(os.path.join(HARNESS, "go.sum"), modfile[:-4] + ".sum")
     env = dict(GOENV)
     cmd = [GO, "test", "-c", "-tags", "verif", "-modfile", modfile, "-o", out]
+    if os.environ.get("VERIF_COVER"):
+        cmd += ["-cover", "-coverpkg=github.com/bool64/cache"]
     if race:
         cmd.append("-race")
         env["CGO_ENABLED"] = "1"
@@ -263,6 +265,9 @@ def run_harness(test, env, timeout=900, race=False, wd=None):
     e = dict(GOENV)
     e.update({k: str(v) for k, v in env.items()})
     cmd = ["timeout", str(timeout), binp, "-test.run", "^%s$" % test, "-test.count=1", "-test.timeout", "%ds" % (timeout + 30)]
+    if os.environ.get("VERIF_COVER"):
+        os.makedirs(os.environ["VERIF_COVER"], exist_ok=True)
+        cmd.append("-test.coverprofile=%s/%s-%d-%d.out" % (os.environ["VERIF_COVER"], test, os.getpid(), int(time.time() * 1000) % 100000000))
     p = subprocess.run(cmd, cwd=wd or WORK, env=e, stdout=subprocess.PIPE, stderr=subprocess.STDOUT, text=True,
                        errors="replace")
     res = None
